@@ -456,6 +456,33 @@ class FileSplicer:
                 else:
                     self.ed.insert(src.t(pc).end, '; %s vx_r }' % post)
                 applied.append('N18')
+            if s.word == 'callfn':
+                # N18 for free functions: every call `name(ARGS)` -> `{ <pre> let vx_r = name(ARGS); <post> vx_r }`; $ARG2 = text of the 2nd argument
+                fname = s.args[0]
+                lines_ = s.text.split('\n')
+                cut = next((i_ for i_, l_ in enumerate(lines_) if l_.strip() == '----'), len(lines_))
+                pre0 = '\n'.join(lines_[:cut]); post0 = '\n'.join(lines_[cut + 1:])
+                nhit = 0
+                for k in range(it.body_open + 1, it.body_close):
+                    if src.is_id(k, fname) and src.is_p(k + 1, '(') and not src.is_p(k - 1, '.') and not src.is_id(k - 1, 'fn'):
+                        po = k + 1; pc = src.match(po)
+                        args_ = []; a0 = po + 1; q = po + 1
+                        while q < pc:
+                            tt = src.t(q)
+                            if tt.kind == 'punct' and tt.text in OPEN: q = src.match(q) + 1; continue
+                            if tt.kind == 'punct' and tt.text == ',': args_.append(src.text_of(a0, q)); a0 = q + 1
+                            q += 1
+                        if a0 < pc: args_.append(src.text_of(a0, pc))
+                        sub = lambda t_: t_.replace('$ARG2', args_[1] if len(args_) > 1 else '').replace('$ARG1', args_[0] if args_ else '').replace('$ARG3', args_[2] if len(args_) > 2 else '')
+                        pre, ids1 = mark_obligations(sub(pre0)); post, ids2 = mark_obligations(sub(post0))
+                        if nhit == 0: clause_ids += ids1 + ids2
+                        # path prefix (e.g. `res::value(`) stays in front
+                        self.ed.insert(src.t(k).start if not (src.is_p(k - 1, ':') and src.is_p(k - 2, ':')) else src.t(self.postfix_start(k)).start, '{ %s let vx_r = ' % pre)
+                        self.ed.insert(src.t(pc).end, '; %s vx_r }' % post)
+                        nhit += 1
+                if nhit == 0 and not s.optional:
+                    raise SpliceError('lost anchor: fn %s has no call of %s(' % (key, fname))
+                if nhit: applied.append('N18')
             if s.word == 'select':
                 self.select_rewrite(it, applied)
 
@@ -958,6 +985,21 @@ class FileSplicer:
                 self.report['functions'].append({'key': 'lemma:' + name, 'file': fs.path, 'line': 0, 'props': props, 'implicit': props, 'rules': [],
                                                  'clauses': ids, 'loops': 0, 'kind': 'lemma', 'verus_name': name,
                                                  'proof_fns': re.findall(r'\bproof fn (\w+)', d.text)})
+            elif d.word == 'keylemma':
+                # generated proof: the given string literals are pairwise different (needed because field keys are literals)
+                name = d.args[0]; keys = d.args[1:]
+                body = ['    ' + ' '.join('reveal_strlit("%s");' % k for k in keys)]
+                body.append('    ' + ' '.join('assert("%s"@.len() == %d);' % (k, len(k)) for k in keys))
+                ens = []
+                for a_ in range(len(keys)):
+                    for b_ in range(a_ + 1, len(keys)):
+                        ka, kb = keys[a_], keys[b_]
+                        ens.append('"%s"@ != "%s"@' % (ka, kb))
+                        if len(ka) == len(kb):
+                            ix = next(i_ for i_ in range(len(ka)) if ka[i_] != kb[i_])
+                            body.append('    assert("%s"@[%d] != "%s"@[%d]);' % (ka, ix, kb, ix))
+                txt = 'pub proof fn %s()\n    ensures\n        %s,\n{\n%s\n}\n' % (name, ',\n        '.join(ens), '\n'.join(body))
+                appends.append('verus!{\n' + txt + '}\n')
             elif d.word == 'appendraw':
                 appends.append(d.text + '\n')
             elif d.word == 'delete':
